@@ -123,3 +123,13 @@ func VerifBuildPathResolver(paths []string) (func(string) string, error) {
 func VerifBuildWebSocketURL(serverURL, joinCode, peerID, role string, maxReceivers int) (string, error) {
 	return buildWebSocketURL(serverURL, joinCode, peerID, role, maxReceivers)
 }
+
+// ---- dumb-mode record (C15) -----------------------------------------------------
+
+func VerifRecvDumbDiscardReader(r io.Reader) (string, error) { return recvDumbDiscardReader(r, nil) }
+func VerifSendDumbDataWriter(w io.Writer, name []byte, size int64) error {
+	return sendDumbDataWriter(w, name, size)
+}
+func VerifRecvDumbDiscard(ctx context.Context, conn transfer.Conn) (string, error) {
+	return recvDumbDiscard(ctx, conn, nil)
+}
